@@ -435,6 +435,13 @@ def o_c17(w, args):
     if m: return m
     if as_simplicial_complex(dict(other)) != other:
         return '[as_simplicial_complex/passthrough] an object without the marker is not returned unchanged'
+    # objects that have some of the encoding's fields but not the marker are ordinary JSON data
+    for look in ({'simplices': [], 'x': 1},
+                 {'__version__': plain.get('__version__') if isinstance(plain, dict) else 0, 'simplices': [{'id': 1, 'faces': [], 'attributes': {}}]},
+                 {'simplices': [{'id': 'p', 'faces': [], 'attributes': {'simplices': []}}]}):
+        back = json.loads(json.dumps({'w': look, 'l': [look]}), object_hook=as_simplicial_complex)
+        if back != {'w': look, 'l': [look]} or type(back['w']) is not dict:
+            return '[as_simplicial_complex/passthrough] an object with a `simplices` field but without the marker was not passed through: %r -> %r' % (look, back['w'])
     return None
 
 # ================================================================ C18
@@ -561,14 +568,13 @@ def o_c19(w, args):
     chi = sum((-1) ** k * n for k, n in counts.items())
     if c.eulerCharacteristic() != chi:
         return '[eulerCharacteristic/formula] %d, the alternating sum of the counts %s is %d' % (c.eulerCharacteristic(), counts, chi)
-    b = own_betti(c)
-    if sum((-1) ** k * x for k, x in b.items()) != chi:
-        return '[eulerCharacteristic/betti] alternating sum of the Betti numbers %s is not %d' % (b, chi)
-    if isinstance(c, Filtration):
-        return None
-    saved = full_obs(c)
+    if not isinstance(c, Filtration):      # (own_betti reads per-order listings, which a filtration does not restrict to its index: C14)
+        b = own_betti(c)
+        if sum((-1) ** k * x for k, x in b.items()) != chi:
+            return '[eulerCharacteristic/betti] alternating sum of the Betti numbers %s is not %d' % (b, chi)
+    saved = full_obs(c) if not isinstance(c, Filtration) else None
     h = {}
-    for p in c.simplicesOfOrder(0) if c.maxOrder() >= 0 else []:
+    for p in [s for s in c.simplices() if c.orderOf(s) == 0]:       # (a filtration lists what is visible at its index)
         x = c[p].get(key, default)
         if type(x) is not int or x < 0:
             return None          # outside the contract of the integral
@@ -588,9 +594,10 @@ def o_c19(w, args):
         return 'oracle inconsistency %d %d' % (simplexwise, levels)
     if got != levels:
         return '[integrate/wrong-value] integrate = %r, the level-set sum and the simplex-wise sum are %d (heights %s, default %d)' % (got, levels, h, default)
-    d = obs_diff(saved, full_obs(c))
-    if d is not None:
-        return '[integrate/modifies-input] %s' % d
+    if saved is not None:
+        d = obs_diff(saved, full_obs(c))
+        if d is not None:
+            return '[integrate/modifies-input] %s' % d
     return None
 
 # ================================================================ C20
